@@ -600,7 +600,11 @@ def array_decl(draw, ctx, symbolic=None, name=None, max_rows=4, max_cols=5):
     sym = False
     if symbolic == "params" and ctx.params and draw(st.integers(0, 2)) == 0:
         if draw(st.integers(0, ctx.whole_array_odds)) == 0:
-            pn = draw(st.sampled_from(ctx.params))
+            # an array-valued parameter gets a name of its own (mostly): one name cannot be a scalar and an array
+            own = [n for n in ["U", "V", "W", "M", "T2", "U_1"] if n not in ctx.params and n not in ctx.used]
+            pn = draw(st.sampled_from(own)) if (own and draw(st.integers(0, 5)) > 0) else draw(st.sampled_from(ctx.params))
+            if pn in own:
+                ctx.used.add(pn)
             ctx.used.add(name)
             ctx.arrays[name] = (vtype, r, c, True)
             return A.ArrayParamDecl(vtype, name, [str(r), str(c)], pn)
